@@ -302,6 +302,9 @@ def _run(check: Check, args, t0: float) -> int:
         results.append(_run_slice((0, 1, sample_mod)))
     else:
         ctx = multiprocessing.get_context("fork")
+        from checks import plan as _plan
+
+        _plan.ensure_ntlm_env()  # (one credential directory, made and removed by this process; the workers inherit it)
         with concurrent.futures.ProcessPoolExecutor(max_workers=nworkers, mp_context=ctx) as ex:
             futs = [ex.submit(_run_slice, (w, nworkers, sample_mod)) for w in range(nworkers)]
             for f in futs:
